@@ -6,11 +6,29 @@ ALL = ["C%02d" % i for i in range(1, 21)]
 
 # property id -> dict(category, text, note, technique, design_ref)
 CLAIMED = {
+    "C16": dict(
+        category="other",
+        text="Conformance of PooledClient/HashClient/RetryingClient with Client: signatures of the key-addressed operations, forwarding of every parameter exactly once and unmodified (and used for nothing else), propagation of every shared constructor option to the inner clients, RetryingClient transparency. Identical wire bytes per server state are a runtime statement that follows only with client_class = Client.",
+        note="Trusted: CPython ast; signature/argument matching code. Exemption table: ignore_exc, serializer/deserializer, server (one reason each). Two known findings (HashClient.gat/gats positional order).",
+        technique="signature, forwarding and configuration conformance between sibling implementations",
+    ),
+    "C18": dict(
+        category="proof",
+        text="FallbackClient is decided by structure and path rules: writers make one call on caches[0] of their own name with arguments in Client's order and never iterate; readers loop over self.caches in order, call the same-named method once per cache, return at the first hit and consult nothing afterwards; each hit test is evaluated on the delegate's miss value.",
+        note="Trusted: CPython ast; path interpreter; caches have Client's interface. One known finding (gets hit test).",
+        technique="structural delegation rules + path rule on the reader loops",
+    ),
     "C01": dict(
         category="other",
         text="Path and structure rules that are necessary conditions of reply ownership: close-before-escape on every ordinary-exception exit after sendall, noreply <=> no read coupled with the wire token at all 17 call sites, one reply per command in order, no receive state outside locals, only Client touches sockets. Parsing under all segmentations is C03; a misbehaving server is not decided.",
         note="Trusted: CPython ast; path interpreter; wire-fragment evaluator; Client.close does not raise (decided by C06.R6).",
         technique="must-pass-through on exception edges + abstract wire-fragment evaluation + who-may-call",
+    ),
+    "C07": dict(
+        category="other",
+        text="For each of the 6 read methods on Client, PooledClient and HashClient the failure value is compared as a term with the miss value of Client's method, and a path analysis shows that with ignore_exc no ordinary exception from a failure-capable call (socket, reader, _raise_errors, serde; computed by call-graph fixpoint) can escape. Bookkeeping exceptions inside HashClient's failover handlers are left to C13.",
+        note="Trusted: CPython ast; path interpreter; term comparison; input-validation errors are not failures.",
+        technique="sibling conformance of failure/miss terms + exception-escape path analysis",
     ),
     "C08": dict(
         category="other",
